@@ -24,22 +24,24 @@ C20 = 'serde carriers: property C20 (its engineer owns the stream; same naive_lo
 RULES = [
     # ---- serde
     (r'^<DateTime<Tz> as ser::Serialize>::serialize$', [], 'owner: C20_serialize_dt_never_traps', C20 + '; every well-formed value: any offset, any wall clock'),
-    (r'^<DateTime<FixedOffset> as de::Deserialize', [], 'owner-partial: C20_serde_roundtrip_dt_fixed', C20 + '; the texts the serializer writes (dtz_dom)'),
-    (r'^<DateTime<Utc> as de::Deserialize', [], 'owner-partial: C20_serde_roundtrip_dt_utc', C20 + '; the texts the serializer writes'),
-    (r'^serde::ts_\w+_option::serialize', [], 'owner-partial: C20_ts_serialize_option_spec', C20 + '; non-leap values'),
+    (r'^<DateTime<FixedOffset> as de::Deserialize', [], 'C15_serde_de_dt_fixed_total', C20 + '; every string (visit_str = FromStr); the round trip: C20_serde_roundtrip_dt_fixed'),
+    (r'^<DateTime<Utc> as de::Deserialize', [], 'C15_serde_de_dt_utc_total', C20 + '; every string; the round trip: C20_serde_roundtrip_dt_utc'),
+    (r'^serde::ts_\w+_option::serialize', [], 'C15_serde_ts_serialize_option_total', C20 + '; every well-formed value, leap seconds included; the number written: C20_ts_serialize_option_spec (non-leap)'),
     (r'^serde::ts_\w+_option::deserialize', [], 'owner: C20_ts_deserialize_option_spec', C20 + '; every i64 / u64'),
-    (r'^serde::ts_\w+::serialize', [], 'owner-partial: C20_ts_serialize_spec', C20 + '; non-leap values'),
+    (r'^serde::ts_\w+::serialize', [], 'C15_serde_ts_serialize_total', C20 + '; every well-formed value, leap seconds included; the number written: C20_ts_serialize_spec (non-leap)'),
     (r'^serde::ts_\w+::deserialize', [], 'owner: C20_ts_deserialize_spec', C20 + '; every i64 / u64'),
     (r'^<TimeDelta as Serialize>::serialize$', [], 'owner: C20_delta_roundtrip', C20),
     (r'^<TimeDelta as Deserialize', [], 'owner: C20_delta_read_spec', C20 + '; every (i64, i32) pair'),
     (r'^<NaiveDate as ser::Serialize>::serialize$', [], 'owner: C20_serde_roundtrip_date', C20 + '; every date'),
-    (r'^<NaiveDate as de::Deserialize', [], 'owner-partial: C20_serde_roundtrip_date', C20 + '; the texts the serializer writes'),
-    (r'^<NaiveTime as (ser::Serialize|de::Deserialize)', [], 'owner-partial: C20_serde_roundtrip_time', C20 + '; time_dom (a leap-second fraction on second 59 only)'),
-    (r'^<NaiveDateTime as (ser::Serialize|de::Deserialize)', [], 'owner-partial: C20_serde_roundtrip_ndt', C20 + '; ndt_dom'),
+    (r'^<NaiveDate as de::Deserialize', [], 'C15_serde_de_date_total', C20 + '; every string'),
+    (r'^<NaiveTime as ser::Serialize', [], 'C15_serde_ser_time_total', C20 + '; every value'),
+    (r'^<NaiveTime as de::Deserialize', [], 'C15_serde_de_time_total', C20 + '; every string'),
+    (r'^<NaiveDateTime as ser::Serialize', [], 'C15_serde_ser_ndt_total', C20 + '; every value'),
+    (r'^<NaiveDateTime as de::Deserialize', [], 'C15_serde_de_ndt_total', C20 + '; every string'),
     (r'^<Weekday as ser::Serialize>::serialize$', [], 'owner: C20_serde_roundtrip_weekday', C20),
-    (r'^<Weekday as de::Deserialize', [], 'owner-partial: C20_serde_roundtrip_weekday', C20 + '; the names the serializer writes'),
+    (r'^<Weekday as de::Deserialize', [], 'C15_serde_de_names_total', C20 + '; every string'),
     (r'^<Month as ser::Serialize>::serialize$', [], 'owner: C20_serde_roundtrip_month', C20),
-    (r'^<Month as de::Deserialize', [], 'owner-partial: C20_serde_roundtrip_month', C20 + '; the names the serializer writes'),
+    (r'^<Month as de::Deserialize', [], 'C15_serde_de_names_total', C20 + '; every string'),
     (r'serde::|Serialize|Deserialize', [], 'none: outside C15 stream', C20),
     # ---- DateTime
     (r'^DateTime<Tz>::timestamp_nanos_opt$', ['C02:ts.of'], 'C15_timestamp_nanos_opt_total', 'every well-formed value, leap-second fraction on any second included'),
